@@ -38,7 +38,7 @@ func compareChain(sh chainShape, table map[byte]refmodel.Behaviour, st *fw.Stats
 	desc := func() string {
 		hooks := ""
 		if sh.Hooks != "" {
-			hooks = fmt.Sprintf(" on a router with %q (E=OnError hook, P=OnPanic hook, W=a first middleware wraps c.Resp in a pass-through writer, H=the router served a hijacking request and a 404 before)", sh.Hooks)
+			hooks = fmt.Sprintf(" on a router with %q (E=OnError hook, P=OnPanic hook, W=a first middleware wraps c.Resp in a pass-through writer, H=the router served a hijacking request and a 404 before, C=dynamic route on a caching router measured on the second identical request, X=the router served a request that aborted and then panicked (no hook) before, D=debug mode on)", sh.Hooks)
 		}
 		return fmt.Sprintf("chain of %d handlers (global %d, group %d, route %d via %s, + main), behaviours %q%s", sh.N, sh.Split[0], sh.Split[1], sh.Split[2], sh.Via, sh.Beh, hooks)
 	}
@@ -202,9 +202,9 @@ func c05Gen(tier string, emit func(c05Case)) {
 	// c.Resp, is left out of the wrapped chains)
 	for n := 1; n <= 3; n++ {
 		for _, sp := range splitsOf(n - 1) {
-			for _, hk := range []string{"W", "H"} {
+			for _, hk := range []string{"W", "H", "X", "D"} {
 				codes := "pnqabctsmwzx"
-				if hk == "H" {
+				if hk != "W" {
 					codes += "u"
 				}
 				vectors(codes, n, func(b string) {
@@ -287,7 +287,7 @@ func c05Run(c c05Case, st *fw.Stats) []fw.Viol {
 var c05Spec = fw.Spec[c05Case]{
 	ID:    "C05",
 	Level: "model_checking",
-	Rule: "complete product: all behaviour vectors over 12 handler behaviours (+ chains of global middleware around the built-in not-found responder) (+ one handler that re-dispatches with HandleContext to an aborting route, at every position of route-level chains n<=5) (+ the n<=3 product and the near-limit chains again on routers with OnError / OnPanic hooks installed and handlers that record errors) (+ the n<=3 product of chains containing an abort behind a pass-through wrapper of c.Resp, and on a router that served a hijacking request before) (plain, Next, Next+probe, SetStatus(201)+Next, Abort before/after/without Next, AbortThen, AbortWithStatus with/without message, write-then-Next) for chains of n<=4 (thorough 5) handlers x every split of the middleware into global/group/route; n=5 and chains near the handler limit (33,34,61,62,63) by deviation bounding (uniform default behaviour, <=d deviating positions at every position); IsAborted() sampled at every entry and around every abort/Next; " +
+	Rule: "complete product: all behaviour vectors over 12 handler behaviours (+ chains of global middleware around the built-in not-found responder) (+ one handler that re-dispatches with HandleContext to an aborting route, at every position of route-level chains n<=5) (+ the n<=3 product and the near-limit chains again on routers with OnError / OnPanic hooks installed and handlers that record errors) (+ the n<=3 product of chains containing an abort behind a pass-through wrapper of c.Resp, on a router that served a hijacking request / a request that aborted and then panicked before, and in debug mode) (plain, Next, Next+probe, SetStatus(201)+Next, Abort before/after/without Next, AbortThen, AbortWithStatus with/without message, write-then-Next) for chains of n<=4 (thorough 5) handlers x every split of the middleware into global/group/route; n=5 and chains near the handler limit (33,34,61,62,63) by deviation bounding (uniform default behaviour, <=d deviating positions at every position); IsAborted() sampled at every entry and around every abort/Next; " +
 		"each chain is run through ServeHTTP and compared event by event with a cursor-free chain interpreter; non-trivial = a chain containing an abort",
 	Assume: []string{"chains stay within the documented limit (62 middleware + main handler); global middleware is not counted by any registration check (noted in DESIGN, outside the property)"},
 	Bounds: func(tier string) map[string]any {
